@@ -9,6 +9,7 @@ import (
 	"crypto/ecdsa"
 	"crypto/elliptic"
 	"crypto/rand"
+	"crypto/sha256"
 	"crypto/tls"
 	"crypto/x509"
 	"crypto/x509/pkix"
@@ -186,16 +187,34 @@ type hist struct {
 	t0      time.Time
 	adv     int64 // total model-clock advance so far, seconds
 	ids     map[*tls.Certificate]int
+	prints  map[*tls.Certificate]string
 	nextID  int
 	oracle  map[string]string // host -> "" (not an IP for net.ParseIP) or canonical text
 	oracleK []string
 }
 
+// chainPrint fingerprints what a client would be sent for this certificate (every DER block, in order).
+func chainPrint(c *tls.Certificate) string {
+	hsh := sha256.New()
+	for _, der := range c.Certificate {
+		fmt.Fprintf(hsh, "%d:", len(der))
+		hsh.Write(der)
+	}
+	return fmt.Sprintf("%d/%x", len(c.Certificate), hsh.Sum(nil)[:8])
+}
+
+// idOf: "the same certificate" = the same object presenting the same chain. An object whose chain changed
+// between two hand-outs is a different certificate for the client, hence gets a new id.
 func (h *hist) idOf(c *tls.Certificate) int {
-	if id, ok := h.ids[c]; ok {
+	fp := chainPrint(c)
+	if id, ok := h.ids[c]; ok && h.prints[c] == fp {
 		return id
 	}
+	if h.prints == nil {
+		h.prints = map[*tls.Certificate]string{}
+	}
 	h.ids[c] = h.nextID
+	h.prints[c] = fp
 	h.nextID++
 	return h.nextID - 1
 }
@@ -296,4 +315,3 @@ func main() {
 	}
 	run(e)
 }
-
